@@ -1,6 +1,7 @@
-(* C13 - arrays and strings: shared by reference, indexed exactly, measured in characters. Property theorems only (proofs in proofs/VMIndexProofs.v) for EVERY machine state. *)
-From NL.Model Require Import VM.
-From NL.Proofs Require VMStepProofs VMIndexProofs.
+(* C13 - arrays and strings: shared by reference, indexed exactly, measured in characters. Property theorems only (proofs in proofs/VMIndexProofs.v) for EVERY machine state. SOURCE LEVEL (added): compile_correct_F2h ties these machine-level facts to what a program's text denotes for top-level programs (fragment F2h). *)
+From NL.Model Require Import VM Pipeline.
+From NL.Spec Require Import Sem Fragment Fragment2 Fragment2h.
+From NL.Proofs Require VMStepProofs VMIndexProofs CompileCorrectH5.
 Import VMStepProofs VMIndexProofs.
 Open Scope Z_scope.
 
@@ -76,6 +77,34 @@ Proof. exact VMIndexProofs.length_chars. Qed.
 Theorem length_elements : forall (h : heap) (l : positive) (vs : list val), get_arr h l = Ok vs -> call_length h [VArr l] = Ok (VInt (zlength vs), h).
 Proof. exact VMIndexProofs.length_elements. Qed.
 
+(* SOURCE level (fragment F2h: top-level programs with arrays, strings, floats, indexing, index assignment, builtins): the value graph - including WHICH variables and elements share one object - the output and the error kind computed by the machine are those the definitional semantics assigns to the tree *)
+Theorem compile_correct_F2h : forall (orc : oracle) (p : block), in_F2h p = true -> ends_expr p = true -> lits_exact (lits_b p) -> forall bc : bytecode, compile p = Ok bc -> forall fuel : nat, (size2h_b p <= fuel)%nat -> sem_program orc fuel p <> SemFuel -> sem_small orc fuel p (length (b_constants bc)) -> exists budget : nat, obs_eq_h (run_program orc bc budget) (sem_program orc fuel p).
+Proof. exact CompileCorrectH5.compile_correct_F2h. Qed.
+
+(* two variables name one array in the semantics iff their slots hold one array object on the machine *)
+Theorem alias_same_on_both_sides : forall (K : Z) (pl : list (const * val)) (holes : list nat) (ds : CompileCorrectB.decls) (R : loc_rel) (sst : sstate) (m : CompileCorrectH1.hst) (i j : nat) (y1 : text) (c1 : positive) (y2 : text) (c2 l1 l2 l1' l2' : positive) (vs : list val), CompileCorrectH4.RelS K pl holes ds R sst m -> nth_error ds i = Some (y1, c1) -> nth_error ds j = Some (y2, c2) -> ~ In i holes -> ~ In j holes -> get_cell c1 sst = VArr l1 -> get_cell c2 sst = VArr l2 -> nth i (CompileCorrectH1.hs_gl m) VNull = VArr l1' -> nth j (CompileCorrectH1.hs_gl m) VNull = VArr l2' -> get_arr (CompileCorrectH1.hs_heap m) l1' = Ok vs -> l1 = l2 <-> l1' = l2'.
+Proof. exact CompileCorrectH5.alias_same_on_both_sides. Qed.
+
+(* semantics: a write through one reference is read back through any reference to the same array *)
+Theorem alias_through_variables : forall (st : sstate) (l : positive) (z : Z) (v : val) (st' : sstate) (vs : list val), get_arr (st_heap st) l = Ok vs -> sem_index_set st (VArr l) (VInt z) v = ROk v st' -> sem_index_get st' (VArr l) (VInt z) = ROk v st'.
+Proof. exact CompileCorrectH5.alias_through_variables. Qed.
+
+(* the index rule of the semantics (spec_index) and of the machine (norm_index) coincide: 0..len-1 from the front, -1..-len from the back, anything else an index error *)
+Theorem index_rule_source : forall z len : Z, 0 <= len -> MIN_INT <= z -> (0 <= z < len -> spec_index z len = Some (Z.to_nat z) /\ norm_index z len = Ok z) /\ (- len <= z < 0 -> spec_index z len = Some (Z.to_nat (len + z)) /\ norm_index z len = Ok (len + z)) /\ (z < - len \/ len <= z -> spec_index z len = None /\ norm_index z len = Err EIndexError).
+Proof. exact CompileCorrectH5.index_rule_source. Qed.
+
+(* indexing related values in related heaps gives related results (or the same error) *)
+Theorem index_get_agrees : forall (K : Z) (pl : list (const * val)) (holes : list nat) (ds : CompileCorrectB.decls) (R : loc_rel) (sst : sstate) (m : CompileCorrectH1.hst) (base base' idx idx' : val), CompileCorrectH4.RelS K pl holes ds R sst m -> CompileCorrectH4.Pval R base base' -> CompileCorrectH4.Pval R idx idx' -> CompileCorrectH4.corr K pl holes ds R (sem_index_get sst base idx) (CompileCorrectH2.hlift_o m (CompileCorrectH1.h_index_get m base' idx')).
+Proof. exact CompileCorrectH5.index_get_agrees. Qed.
+
+(* semantics: a failed index assignment changes nothing *)
+Theorem failed_write_leaves_sequence_unchanged : forall (st : sstate) (base idx v : val) (k : errkind) (st' : sstate), sem_index_set st base idx v = RErr k st' -> st' = st.
+Proof. exact CompileCorrectH5.failed_write_leaves_sequence_unchanged. Qed.
+
+(* machine: a failed index assignment produces no output and stops *)
+Theorem failed_write_machine : forall (m : CompileCorrectH1.hst) (lhs idx v : val) (k : errkind) (out : text), CompileCorrectH2.hlift_o m (CompileCorrectH1.h_index_set m lhs idx v) = CompileCorrectH2.HErr k out -> out = CompileCorrectH1.hs_out m.
+Proof. exact CompileCorrectH5.failed_write_machine. Qed.
+
 
 Print Assumptions norm_index_spec.
 Print Assumptions index_get_array_ok.
@@ -95,3 +124,10 @@ Print Assumptions const_no_copy.
 Print Assumptions array_no_copy.
 Print Assumptions length_chars.
 Print Assumptions length_elements.
+Print Assumptions compile_correct_F2h.
+Print Assumptions alias_same_on_both_sides.
+Print Assumptions alias_through_variables.
+Print Assumptions index_rule_source.
+Print Assumptions index_get_agrees.
+Print Assumptions failed_write_leaves_sequence_unchanged.
+Print Assumptions failed_write_machine.
